@@ -293,7 +293,8 @@ Qed.
    contribution exp2 <> 0) is treated separately *)
 Definition Pow2PathTotal : Prop :=
   forall zz p b rest e10 e2,
-    NormMant (mant zz) -> 1 <= p <= 2147483648 -> e2 <> 0 -> MinInt64 <= e2 <= MaxInt64 ->
+    NormMant (mant zz) -> mdigits (mant zz) <= 1073741824 + 18 -> 1 <= p <= 1073741824 ->
+    e2 <> 0 -> MinInt64 <= e2 <= MaxInt64 ->
     pgood (scan_finish zz p b rest e10 e2).
 
 Lemma scan_finish_dec_total z0 v m' sh p b rest e10 :
@@ -328,12 +329,12 @@ Proof.
 Qed.
 
 Theorem dscan_total z s base :
-  valid_base base = true -> zlen s < 1073741824 -> 0 <= prec z <= 2147483648 ->
+  valid_base base = true -> zlen s < 536870912 -> 0 <= prec z <= 1073741824 ->
   Pow2PathTotal -> pgood (dscan_dec z s base).
 Proof.
   intros Hvb Hlen Hprec Hpow. unfold dscan_dec.
   set (p := if prec z =? 0 then DefaultDecimalPrec else prec z).
-  assert (Hp : 1 <= p <= 2147483648).
+  assert (Hp : 1 <= p <= 1073741824).
   { unfold p, DefaultDecimalPrec. destruct (Z.eqb_spec (prec z) 0); lia. }
   destruct (scanSign s) as [[ng r1]|] eqn:Hs; [|reflexivity].
   assert (Hr1 : zlen r1 <= zlen s).
@@ -357,14 +358,15 @@ Proof.
   destruct (Z.eq_dec e2 0) as [->|Hne].
   - apply (scan_finish_dec_total _ (ds_val ds) m' sh); try assumption; unfold MaxPrec; lia.
   - apply Hpow; try assumption.
-    cbn [mant with_mant]. constructor; try assumption. lia.
+    + cbn [mant with_mant]. constructor; try assumption. lia.
+    + cbn [mant with_mant]. lia.
 Qed.
 
 Lemma bytes_eqb_refl a : bytes_eqb a a = true.
 Proof. induction a as [|x a IH]; [reflexivity|]. cbn. now rewrite Z.eqb_refl, IH. Qed.
 
 Theorem Parse_total z s base :
-  valid_base base = true -> zlen s < 1073741824 -> 0 <= prec z <= 2147483648 ->
+  valid_base base = true -> zlen s < 536870912 -> 0 <= prec z <= 1073741824 ->
   Pow2PathTotal -> pgood (Parse z s base).
 Proof.
   intros Hvb Hlen Hprec Hpow. unfold Parse.
